@@ -4,6 +4,10 @@ import json, os
 HERE = os.path.dirname(os.path.dirname(os.path.abspath(__file__)))
 
 CLAIMED = {
+ 'C03': ('table closure docs->parser vocabulary->consumption (def-use from annotation lookup to attribute store)->symbolic writer table; def-use provenance of every block lookup key; guarded-effect queries for pairing and explicit-beats-heuristic rules',
+         'Decides for every comment block the structural necessary conditions: every documented identifier annotation is accepted, consumed, stored into the documented model attribute and written under the documented XML key (19 annotation chains, 3 value tags with their doc elements, skip, attributes, constructor/method roles); each of the 14 block lookups builds its key only from the node being annotated with the separators the comment parser uses, and prefers the C name over the GType name; rename-to stores shadows/shadowed-by together, crossing, guarded on the target; heuristics never overwrite explicit sync/finish annotations (sibling agreement).',
+         'Not decided: which of several competing rename-to annotations wins for a given input, constructor/method eligibility (C04). Trusted: CPython ast; the CHAIN/TAGS oracle tables in gilint/props/c03.py (from the property text).',
+         '§4 C03'),
  'C02': ('module-level table reconstruction (folding ast.py), exhaustive finite-domain evaluation of the transfer-default functions, guarded-effect queries for callable roles, recursion-shape rule for pointer canonicalisation',
          'Decides for every un-annotated API the structural necessary conditions: the C spelling table maps stdint, signed/unsigned spellings and GLib aliases consistently and contains the documented semantic entries (char* utf8, void* gpointer, _Bool gboolean, returned char** array of utf8); pointer canonicalisation peels one level per step; transfer defaults equal the documented ones for every direction x caller-allocates and for every fundamental type x const (exhaustive, 95 valuations); trailing GError** is popped and throws set together; callback, *data and destroy-notify roles; async scope; untyped pointers nullable; the original spelling is kept as c:type.',
          'Not decided: canonicalisation results on arbitrary spellings and typedef chains, positions (value-level). Trusted: CPython ast; documented defaults encoded as the oracle in gilint/props/c02.py.',
